@@ -4,7 +4,7 @@
 Require Extraction.
 Require ExtrOcamlBasic.
 From KV Require Import Base.Prelude Keys.KeyModel Keyberon.Types Keyberon.Switch Keyberon.Layout
-  Parser.SwitchCompile Spec.BoolSpec Kanata.Glue Parser.SeqTable Parser.Sexpr Parser.Template Kanata.Zippy Kanata.Reload.
+  Parser.SwitchCompile Spec.BoolSpec Kanata.Glue Parser.SeqTable Parser.Sexpr Parser.Template Kanata.Zippy Kanata.Reload Spec.Keymap Proofs.C04Refine.
 Extraction Language OCaml.
 Extraction "model.ml"
   layout_event layout_tick layout_event2 layout_tick2 chv2_init set_chords2 init_layout keycodes current_layer evaluate_boolean switch_actions
@@ -14,4 +14,5 @@ Extraction "model.ml"
   parse_ atom_res list_res fmt_sexpr parse_vars_items expand_templates
   z_init z_press z_release z_tick z_is_idle
   next_index reload_due
+  frag_cfg hist_ok km_run km_init
   N.add N.mul N.of_nat N.to_nat.
